@@ -38,6 +38,23 @@ Definition rel_close (a b : Qc) : bool := Qc_leb (Qc_abs (a - b)) (Q2Qc (1 # 100
             else:
                 c["snr"] = [rng.choice([1.0, 2.0, 4.0, 0.5]) for _ in range(n)]
             cases.append(c)
+        # a per-sample snr / std given as a ONE-element array-like for a longer signal (np.atleast_1d(cfg), a one-row column): it
+        # broadcasts — every sample gets its own draw with that scale (size is the signal's shape, not the scale's)
+        for _ in range(12 if tier == "quick" else 60):
+            n = rng.randint(2, 12)
+            a = gens.values(rng, n, rng.choice(["dyadic", "int"]))
+            if all(v == 0 for v in a):
+                a[0] = 1.0
+            mode = rng.choice(["db_array", "lin_array", "std"])
+            c = {"a": a, "mode": mode, "list_input": rng.random() < 0.4}
+            if mode == "db_array":
+                c["snr"] = [float(rng.choice([0, 10, 20, -10]))]
+            elif mode == "lin_array":
+                c["snr"] = [rng.choice([1.0, 2.0, 4.0, 0.5])]
+            else:
+                c["std"] = rng.choice([1.0, 0.5, 2.0])
+                c["std_array"] = True
+            cases.append(c)
         # integer-typed signals whose squares are large (still exact in int64 and in float64 sums)
         for vals in ([3000000000, -3000000000, 1, 2], [2 ** 31, 2 ** 31, -(2 ** 31)], [10 ** 9] * 12):
             cases.append({"a": [float(v) for v in vals], "mode": "lin", "snr": 4.0, "list_input": False, "int64": True})
@@ -66,7 +83,7 @@ Definition rel_close (a b : Qc) : bool := Qc_leb (Qc_abs (a - b)) (Q2Qc (1 # 100
             with warnings.catch_warnings():
                 warnings.simplefilter("ignore")
                 if c["mode"] == "std":
-                    r = P.noise_gauss(a, std=c["std"])
+                    r = P.noise_gauss(a, std=(np.array([c["std"]]) if c.get("std_array") and not c["list_input"] else [c["std"]] if c.get("std_array") else c["std"]))
                 else:
                     r = P.noise_gauss(a, snr=snr, snr_in_db=c["mode"].startswith("db"))
                     P.noise_gauss(a, snr=snr, snr_in_db=c["mode"].startswith("db"))     # same arguments again: same scale expected
